@@ -236,6 +236,9 @@ class Fn:
         self._ptr_cache = {}
         self._prov_cache = {}
         self._sdefs = None
+        self._prov_stack = []
+        self._prov_session = {}
+        self._prov_inprog = set()
         self._writes = None
         self.file = d['span']['file']
         self.line = d['span']['line']
@@ -482,33 +485,63 @@ class Fn:
     def read(self, lvexpr, point, _depth=0):
         """Provenance of the value stored at canonical lvalue `lvexpr` just before `point`."""
         key = (lvexpr, point)
-        if key in self._prov_cache:
-            v = self._prov_cache[key]
-            if v is None:
-                return ('cyc',)
+        v = self._prov_cache.get(key, self)
+        if v is not self:
             return v
+        st_ = self._prov_stack
+        if key in self._prov_session:
+            # a result that was computed inside an unfinished cycle: usable within this top-level query only
+            if st_:
+                st_[-1][1] = True
+            return self._prov_session[key]
+        if key in self._prov_inprog:
+            # still being computed (loop): everything above it on the stack is provisional
+            for k_ in range(len(st_) - 1, -1, -1):
+                if st_[k_][0] == key:
+                    break
+                st_[k_][1] = True
+            return ('cyc',)
         # a temporary with exactly one definition (and whose address is never taken): its value is that definition,
         # on whatever path and in whatever loop iteration it is read - no backward search, no spurious cycles
+        sd = None
         if isinstance(lvexpr, tuple) and lvexpr[0] == 'local' and len(lvexpr) == 2:
             sd = self._single_defs().get(lvexpr[1])
             if sd is not None:
-                k2 = ('#sd', lvexpr[1])
-                if k2 in self._prov_cache:
-                    v = self._prov_cache[k2]
-                    return ('cyc',) if v is None else v
-                self._prov_cache[k2] = None
-                try:
-                    v = self.rvalue(sd[2], (sd[0], sd[1]))
-                except RecursionError:
-                    v = ('cyc',)
-                self._prov_cache[k2] = v
-                return v
-        self._prov_cache[key] = None
+                key = ('#sd', lvexpr[1])
+                v = self._prov_cache.get(key, self)
+                if v is not self:
+                    return v
+                if key in self._prov_session:
+                    if st_:
+                        st_[-1][1] = True
+                    return self._prov_session[key]
+                if key in self._prov_inprog:
+                    for k_ in range(len(st_) - 1, -1, -1):
+                        if st_[k_][0] == key:
+                            break
+                        st_[k_][1] = True
+                    return ('cyc',)
+        self._prov_inprog.add(key)
+        frame = [key, False]
+        st_.append(frame)
         try:
-            v = self._read(lvexpr, point)
+            if sd is not None:
+                v = self.rvalue(sd[2], (sd[0], sd[1]))
+            else:
+                v = self._read(lvexpr, point)
         except RecursionError:
             v = ('cyc',)
-        self._prov_cache[key] = v
+        finally:
+            st_.pop()
+            self._prov_inprog.discard(key)
+        if frame[1]:
+            self._prov_session[key] = v
+            if st_:
+                st_[-1][1] = True
+        else:
+            self._prov_cache[key] = v
+        if not st_:
+            self._prov_session.clear()
         return v
 
     def _single_defs(self):
